@@ -12,7 +12,7 @@ DESIGN_REF = "5/C11"
 TECHNIQUE = "runtime oracle on the real TimingEngine.time_at/bpm_at: exact-rational timeline; metamorphic monitors (offset shift, redundant BPM, monotonicity, query-order independence); exhaustive small grid"
 LEVEL_TEXT = (
     "Engines are built the real way (SSC text -> TimingData -> TimingEngine) for every placement of up to 3 "
-    "(quick) / 4 (thorough) events on a 5-beat grid and for seeded random timing data with forced coincidences, "
+    "(quick) / 5 (thorough) events on a 5-beat grid and for seeded random timing data with forced coincidences, "
     "plus the corpus; every probe (event beats, warp-union ends, +-1 tick, random and negative beats, all 7 tags) "
     "is compared with an exact rational evaluation to 1e-9 s, asked in shuffled and sorted order on one engine, "
     "and re-asked on engines with a shifted offset and an inserted redundant BPM change. Exhaustive only on the grid."
@@ -24,7 +24,7 @@ RULE = (
     "BPM 1-2000, pauses 0.001-10 s, offsets +-100; corpus simfiles and charts. Non-trivial when the case has at "
     "least one event besides the first BPM; distinct by canonical JSON of the timing data."
 )
-EXHAUSTIVE_PART = "all placements of <=3 (quick) / <=4 (thorough) events on the 5-beat grid"
+EXHAUSTIVE_PART = "all placements of <=3 (quick) / <=5 (thorough; <=4 for C12) events on the 5-beat grid"
 ASSUMPTIONS = ["exact rational timeline is the specification", "float error of the engine stays below 1e-9 s for times below ~3e4 s"]
 MONITORS = ["time_at", "bpm_at", "monotone", "offset_shift", "redundant_bpm", "order_independence"]
 REQUIRED = ["stop_on_delay", "nested_warps", "overlapping_warps", "touching_warps", "warp_at_beat_0",
@@ -47,9 +47,9 @@ def anchors():
     }
 
 
-def cases(ctx, random_n=(600, 16 * 6000)):
+def cases(ctx, random_n=(600, 16 * 6000), thorough_events=5):
     quick = ctx.tier == "quick"
-    for i, combo in enumerate(G.grid_configs(3 if quick else 4)):
+    for i, combo in enumerate(G.grid_configs(3 if quick else thorough_events)):
         if ctx.mine(i):
             yield {"kind": "grid", "combo": combo}
     ctx.exhaustive = True
